@@ -220,6 +220,17 @@ bool Generator::GeneratorImpl::isPiecewiseStatement(const AnalyserEquationAstPtr
            && mProfile->hasConditionalOperator();
 }
 
+/**
+ * Name of the units of a variable, or an empty string for a variable without units (e.g. the placeholder variable of
+ * an imported component that has been marked as external).
+ */
+static std::string unitsName(const VariablePtr &variable)
+{
+    auto units = variable->units();
+
+    return (units != nullptr) ? units->name() : std::string();
+}
+
 void Generator::GeneratorImpl::updateVariableInfoSizes(size_t &componentSize,
                                                        size_t &nameSize,
                                                        size_t &unitsSize,
@@ -228,7 +239,7 @@ void Generator::GeneratorImpl::updateVariableInfoSizes(size_t &componentSize,
     auto variableVariable = variable->variable();
     auto variableComponentSize = owningComponent(variableVariable)->name().length() + 1;
     auto variableNameSize = variableVariable->name().length() + 1;
-    auto variableUnitsSize = variableVariable->units()->name().length() + 1;
+    auto variableUnitsSize = unitsName(variableVariable).length() + 1;
     // Note: +1 to account for the end of string termination.
 
     componentSize = (componentSize > variableComponentSize) ? componentSize : variableComponentSize;
@@ -441,7 +452,7 @@ void Generator::GeneratorImpl::addImplementationVoiInfoCode()
         && !mProfile->variableOfIntegrationVariableTypeString().empty()) {
         auto voiVariable = mModel->voi()->variable();
         auto name = voiVariable->name();
-        auto units = voiVariable->units()->name();
+        auto units = unitsName(voiVariable);
         auto component = owningComponent(voiVariable)->name();
         auto type = mProfile->variableOfIntegrationVariableTypeString();
 
@@ -470,7 +481,7 @@ void Generator::GeneratorImpl::addImplementationStateInfoCode()
 
             infoElementsCode += mProfile->indentString()
                                 + generateVariableInfoEntryCode(stateVariable->name(),
-                                                                stateVariable->units()->name(),
+                                                                unitsName(stateVariable),
                                                                 owningComponent(stateVariable)->name(),
                                                                 type);
         }
@@ -527,7 +538,7 @@ void Generator::GeneratorImpl::addImplementationVariableInfoCode()
             infoElementsCode += mProfile->indentString()
                                 + replace(replace(replace(replace(mProfile->variableInfoEntryString(),
                                                                   "[NAME]", variableVariable->name()),
-                                                          "[UNITS]", variableVariable->units()->name()),
+                                                          "[UNITS]", unitsName(variableVariable)),
                                                   "[COMPONENT]", owningComponent(variableVariable)->name()),
                                           "[TYPE]", variableType);
         }
